@@ -1,2 +1,4 @@
-#!/bin/sh
-true
+#!/bin/bash
+set -e
+cd "$(dirname "$0")"
+./build.sh
